@@ -303,7 +303,10 @@ func generate(w *world, thorough bool) []*Case {
 	for i := range otherKey {
 		otherKey[i] = byte(0x33 + 3*i)
 	}
-	g := &caseGen{w: w, byN: map[string]*tmpl{}}
+	g := &caseGen{w: w, byN: map[string]*tmpl{}, subst: subst8}
+	if thorough {
+		g.subst = subst16
+	}
 	g.ts = w.templates(xauthPayload(w, friendKey), xauthPayload(w, otherKey))
 	for _, t := range g.ts {
 		g.byN[t.name] = t
@@ -330,13 +333,25 @@ func generate(w *world, thorough bool) []*Case {
 			g.families(t, pre, "vtlcs", true)
 			g.families(t, post, "v", false)
 			g.families(t, ibd, "v", false)
+			if thorough {
+				g.families(t, &ctxt{name: "ibd-pre", ibd: true}, "vtlcs", true)
+				g.families(t, &ctxt{name: "friend-pre", friend: true}, "vtcs", true)
+			}
 			continue
 		}
 		g.families(t, pre, "v", false)
 		g.families(t, post, "vtlcs", true)
-		if deep[t.name] {
+		switch {
+		case thorough:
+			g.families(t, pre, "tlc", false)
+			g.families(t, ready, "vtlcs", true)
+			g.families(t, ibd, "vtcs", true)
+			g.families(t, xa, "vtc", false)
+			g.families(t, friend, "vtlcs", true)
+			continue
+		case deep[t.name]:
 			g.families(t, ready, "vtcs", false)
-		} else {
+		default:
 			g.families(t, ready, "v", false)
 		}
 		g.families(t, ibd, "vc", false)
